@@ -117,7 +117,7 @@ where
                                 event
                             }
                             Err((mut event, err)) => {
-                                event.ingest = ProcessorStatus::Failed(err);
+                                event.ingest_failed(err);
                                 event
                             }
                         })
